@@ -20,4 +20,22 @@ def pyStr : PyVal → String
   | .bool false => "False"
   | .int n => toString n
 
+/-- a number as `order()` may return it and as Python compares it: the decimal `m / 10^e`.  Every int, bool
+    (`True` = 1) and finite float is such a number exactly. -/
+structure Num where
+  m : Int
+  e : Nat
+deriving DecidableEq, Repr
+
+def Num.ofInt (n : Int) : Num := ⟨n, 0⟩
+
+/-- Python `a <= b` on numbers: `a.m / 10^a.e ≤ b.m / 10^b.e`, cross-multiplied -/
+def Num.le (a b : Num) : Bool := decide (a.m * (10 : Int) ^ b.e ≤ b.m * (10 : Int) ^ a.e)
+
+/-- Python `a == b` on numbers (`1 == 1.0 == True`) -/
+def Num.eqv (a b : Num) : Bool := a.le b && b.le a
+
+/-- Python truthiness of a number: zero (0, 0.0, -0.0, False) is falsy -/
+def Num.isZero (a : Num) : Bool := a.m == 0
+
 end Plugins
